@@ -7,9 +7,9 @@ wt="/tmp/wt/confirm_$id"; rm -rf "$wt"; git -C /repo worktree prune
 git -C /repo worktree add -q --detach "$wt" HEAD || exit 2
 cp "$src/demo_$L.py" "$wt/demo.py"
 cd "$wt"
-PYTHONPATH="$wt" /venv/bin/python demo.py >/tmp/wt/confirm_$id.clean.log 2>&1; rc_clean=$?
+PYTHONPATH="$wt" /venv/bin/python demo.py >/dev/null 2>&1; rc_clean=$?
 if ! git apply "$src/patch_$L.diff"; then echo "$id: PATCH DOES NOT APPLY"; git -C /repo worktree remove --force "$wt"; exit 3; fi
-PYTHONPATH="$wt" /venv/bin/python demo.py >/tmp/wt/confirm_$id.patched.log 2>&1; rc_patched=$?
+PYTHONPATH="$wt" /venv/bin/python demo.py >/dev/null 2>&1; rc_patched=$?
 tests="$(/tmp/wt_tools/run_tests.sh "$wt" 2>&1 | grep -E '^passed=')"
 echo "$id: demo clean rc=$rc_clean patched rc=$rc_patched tests: $tests"
 okflag=false
